@@ -194,8 +194,13 @@ class patched(object):
     def __enter__(self):
         for mod, name, val in self.plist:
             missing = object()
-            old = mod.__dict__.get(name, missing) if inspect.ismodule(mod) \
-                else getattr(mod, name, missing)
+            # read through __dict__ so that descriptors (classmethod,
+            # staticmethod, property) of a patched class are saved as such
+            # and inherited attributes are deleted again, not copied down
+            try:
+                old = vars(mod).get(name, missing)
+            except TypeError:
+                old = getattr(mod, name, missing)
             self.saved.append((mod, name, old, missing))
             setattr(mod, name, val)
         return self
